@@ -412,6 +412,14 @@ def judge_with_canaries(chk: "Check", module: str, recs: list[dict], canaries: l
     return res
 
 
+def workdir(prefix: str) -> str:
+    """a fresh scratch directory under /verif/.work (created on demand; callers remove it)"""
+    import tempfile
+
+    WORK.mkdir(parents=True, exist_ok=True)
+    return tempfile.mkdtemp(prefix=prefix, dir=WORK)
+
+
 def pmap(fn, items, procs: int | None = None, chunksize: int = 1):
     """fork-based parallel map for observation drivers (module-level fn)"""
     import multiprocessing as mp
